@@ -12,8 +12,9 @@ module.exports = mk({
   oracle ({ a, v, res }) {
     if (a.status !== 'ok' || a.inputUnparsable || a.contentUnparsable) return
     const required = a.reqs.filter((q) => q.must === 'REQUIRED')
+    res.notes = { required_nodes: required.length, dontcare_nodes: a.reqs.filter((q) => q.must === 'DONTCARE').length, forbidden_nodes: a.reqs.filter((q) => q.must === 'FORBIDDEN').length, dontcare_but_hooked: a.reqs.filter((q) => q.must === 'DONTCARE' && q.hooked).length }
     res.nontrivial = required.length > 0
-    if (a.modified && a.mismatches && a.mismatches.length) { res.notes = { skipped_because_erasure_mismatch: 1 }; return } // C02's business; positions would be unreliable
+    if (a.modified && a.mismatches && a.mismatches.length) { res.notes.skipped_because_erasure_mismatch = 1; return } // C02's business; positions would be unreliable
     for (const q of required) {
       if (!q.hooked) v('missing-hook', `${q.kind} at ${q.anc.split('>').slice(-3).join('>')}`, `${q.kind} operation ${summ(q.node).slice(0, 80)} is enabled and sits in an instrumentable position (${q.anc}) but no hook wraps it` + (a.modified ? '' : ' (file reported not modified)'))
       else if (q.expected !== null && q.hooked.name !== q.expected) v('wrong-hook', q.kind, `${q.kind} operation ${summ(q.node).slice(0, 80)} is wrapped by _ddiast.${q.hooked.name}, expected _ddiast.${q.expected}`)
